@@ -242,6 +242,9 @@ func c12feed(c *core.Check) {
 	c12patchTarget(c)
 	c12skipPredicate(c)
 	c12freshName(c)
+	c12nameStorage(c)
+	c12discardLineage(c)
+	c12namedPatch(c)
 	fd := c.Prog.FuncDecl("generator", "FileManager.Feed")
 	key := "generator.(FileManager).Feed"
 	if fd == nil {
